@@ -80,6 +80,20 @@ def run(ctx):
         for _ in range(3):
             A = gen_interp(ctx.rng, t, total=False, in_bounds=ctx.rng.random() < 0.7)
             do_case(ctx, {"ast": a, "A": {k: list(v) for k, v in A.items()}})
+        comps = [n for n in subs(t) if n["k"] == "node" and n is not t and n["kids"] and n["lo"] != n["hi"]]
+        if comps and ctx.rng.random() < 0.5:
+            # a sub-proposition named with the non-fixing range (0, 1) — or nothing said about it — together with
+            # constants for some or all of the leaves below it (so that the assumption itself decides it, or leaves it
+            # undecided until the further interpretation comes): the second stage must see the same model either way
+            n_ = ctx.rng.choice(comps)
+            below = leaves_of(n_)
+            A = {}
+            if ctx.rng.random() < 0.7: A[n_["id"]] = (0, 1)
+            for name, (lo, hi) in below.items():
+                if ctx.rng.random() < 0.75:
+                    c = pick_in(ctx.rng, lo, hi); A[name] = (c, c)
+            ctx.tags["assumption-about-one-subtree"] += 1
+            do_case(ctx, {"ast": a, "A": {k: list(v) for k, v in A.items()}})
         if ctx.rng.random() < 0.3:
             # a leaf that is DECLARED constant, assumed to another value (an assumption may say anything)
             lv = leaves_of(t)
